@@ -938,10 +938,11 @@ class SymBytes:
         return hash(tuple(ENG.concretize(e.t) if isinstance(e, SymInt) else e for e in self.e))
 
     def __format__(self, spec):
-        return "<symbytes %d>" % len(self.e)
+        return repr(self)
 
     def __repr__(self):
-        return "<symbytes %d>" % len(self.e)
+        # unique marker: a formatted string that embeds these bytes can be recognised verbatim
+        return "<symbytes %d #%x>" % (len(self.e), id(self))
 
     __str__ = __repr__
 
